@@ -74,6 +74,9 @@ class SeismicFileConverter(object):
     def get_blank_header_info(self, seismic, header_detection):
         first_il_header_val = seismic.header[0][segyio.tracefield.TraceField.INLINE_3D]
         n_traces = seismic.tracecount if seismic.structured or first_il_header_val == 0 else 0
+        if type(self.geom) is Geometry3d:
+            # Might be converting a window of the input file
+            n_traces = len(self.geom.ilines) * len(self.geom.xlines)
         if header_detection == 'heuristic':
             return HeaderwordInfo(n_traces=n_traces,
                                   seismicfile=seismic,
